@@ -32,6 +32,10 @@ META = dict(
 )
 
 
+def gen(ctx):
+    L.gen_tables(ctx)
+
+
 # ---------------------------------------------------------------------------------------------
 # correspondence
 
